@@ -286,6 +286,13 @@ def check_C15(tier, seed):
     # (2) other grammars: the walk must enumerate exactly the model's pruned token tree
     others = families.fam_ops(tier)[:: (6 if tier == "quick" else 2)] + families.fam_kinds(tier)[:: (20 if tier == "quick" else 4)] + families.fam_dyck_inputs(tier)
     others[-1]["id"] = "dy1"
+    # non-silent WHITESPACE / COMMENT tokens in front of rule items of sequences, repetitions and choices: sibling order = input order
+    tk = dict(id="tk0", text="\n".join(['WHITESPACE = { " " }', 'COMMENT = { "#" ~ (!"#" ~ ANY)* ~ "#" }', "item = { 'a'..'c' }", 'pair = { item ~ "=" ~ item }',
+                                         'list = { (item ~ ",")* ~ item? }', 'nest = { "(" ~ (pair | list) ~ ")" ~ item* }', 'cmp = ${ item ~ nest? }', 'top = { SOI ~ nest+ ~ EOI }']),
+              alphabet=cps("a= #"), maxlen=3 if tier == "quick" else 4, entries=["item", "pair", "list", "nest", "cmp", "top"],
+              inputs=[cps(x) for x in ["a = #c# b", "a #x# = b", "a=#c##d#b", "a , b ,#c# c", "a,#c#b,", "( a = b ) c", "(#x#a #y# = #z# b #w#)#v# c #u# a", "(a,b, c) a b", "( a , #c# b )",
+                                        "a(a=b)", "a (a=b)", "(a=b)(b,c,)", " ( a = b ) #e# ( c , ) ", "(a=#c#b)#d#(#e#a,)", "#c#(a=b)"]])
+    others.append(tk)
     grams = [dy] + others
     path, corpus = peg.make_corpus(grams, "c15")
     for g, c in zip(grams, corpus):
@@ -457,7 +464,7 @@ def check_C19(tier, seed):
     for npush in range(0, 4):
         for sep in ("", " "):
             pre = sep.join(["a"] * npush) + sep + ";"
-            for tail in all_strings(cps("a "), 4 if tier == "quick" else 6):
+            for tail in all_strings(cps("a "), 4 if tier == "quick" else 6) + [cps(x) for x in ["b", "bc", "bcb", "bcbc", "bcbcbc", "b c", "bb", "bca", "ba", "bc bc", "bcba"]]:
                 stacky.append(cps(pre) + tail)
                 stacky.append(cps(pre + sep) + tail)
     # one corpus entry per input class, sharing the rules
@@ -775,7 +782,7 @@ def check_C17(tier, seed):
             chars = [sub(e["m"], e["e"]) for e in elems]
             # skipped text before each element: the WHITESPACE tokens between s and m (one per blank)
             ga = [[[[p, p + 1] for p in range(e["s"], e["m"])], sub(e["m"], e["e"])] for e in elems]
-            exp = {"get_matched": chars, "as_ref": chars, "into_matched": chars, "get_all": ga}
+            exp = {"get_matched": chars, "as_ref": chars, "into_matched": chars, "get_all": ga, "into_all": ga}
             for f in exp:
                 if x.get(f) != exp[f]:
                     d.append((f, exp[f], x.get(f)))
@@ -877,9 +884,11 @@ def check_C18(tier, seed):
     import props
     ctx = Ctx("C18", tier, seed)
     text = "\n".join(['WHITESPACE = { " " }', "w = { 'a'..'c' ~ \"!\"? }", "s = _{ 'a'..'c' ~ \"!\" }", 'o = { (&"ab")? ~ "a" }', "l = { w ~ w* }",
-                      'c = ${ ("ab" | "a") ~ ^"B"? }', "p = { PUSH('a'..'b') ~ PEEK }", "n = !{ s ~ s? }"])
+                      'c = ${ ("ab" | "a") ~ ^"B"? }', "p = { PUSH('a'..'b') ~ PEEK }", "n = !{ s ~ s? }",
+                      # same rule, same span, different content: what lies behind the end of the sub-range decides an optional part
+                      "e = { 'a'..'c' ~ EOI? }"])
     full = "a! b!ab a!aBaa b! a!"
-    rules = ["w", "s", "o", "l", "c", "p", "n"]
+    rules = ["w", "s", "o", "l", "c", "p", "n", "e"]
     g = dict(id="hi0", text=text, alphabet=[], maxlen=0, inputs=[cps(full)], entries=rules)
     path, corpus = peg.make_corpus([g], "c18")
     # pool of (rule, sub-range): same text at different places, same start with different ends, overlapping ranges
@@ -904,11 +913,14 @@ def check_C18(tier, seed):
     tot_hist = 0
     for rd in range(rounds):
         # two rules per pool, several sub-ranges each, so that results of the same type meet in most histories
-        pairs = [("w", "s"), ("o", "l"), ("c", "p"), ("n", "s"), ("s", "o"), ("l", "w"), ("p", "n"), ("c", "o")]
+        pairs = [("o", "e"), ("w", "s"), ("o", "l"), ("c", "p"), ("n", "s"), ("s", "o"), ("l", "w"), ("p", "n"), ("c", "o"), ("e", "w")]
         ra, rb = pairs[rd % len(pairs)]
-        must = [(0, 2), (0, 5), (0, L), (3, 5), (3, L), (9, 11)] if tier == "quick" else [(0, 2), (0, 5), (0, L), (3, 5), (9, 11)]
+        must0 = [(0, 2), (0, 5), (0, L), (3, 5), (3, L), (9, 11)] if tier == "quick" else [(0, 2), (0, 5), (0, L), (3, 5), (9, 11)]
+        # ranges on which these rules give the same span with different content (and the same content from different ranges)
+        special = {"o": [(5, 6), (5, 7), (5, 9), (0, 2), (3, 5)], "e": [(0, 1), (0, 2), (0, 5), (9, 10), (9, 11)]}
         sub = []
         for r in (ra, rb):
+            must = special.get(r, must0)
             rs = must + rnd.sample([x for x in ranges if x not in must], npool // 2 - len(must))
             sub += [{"g": 1, "rule": r, "lo": lo, "hi": hi} for lo, hi in rs]
         # make sure the same (rule) occurs several times so that == between results is exercised
